@@ -27,15 +27,38 @@ structure WF {V : Type} (r : Run V) : Prop where
   /-- operator outputs are value nodes -/
   outsValue : ∀ i op, getOp r.g i = some op → ∀ o ∈ opOutputs op, isValue r.g o = true
 
-structure Sim {V : Type} (r : Run V) (total : Nat → Nat) (rest outs : List Nat) (st : St V)
-    (E : Nat → Option V) : Prop where
+/-- The value the naive evaluation assigns to an id when names not found in this graph's own
+scope are read from the capture environment `caps0`. -/
+def valC {V : Type} (r : Run V) (caps0 : Nat → Option (V × Bool)) (E : Nat → Option V) (v : Nat) :
+    Option V := naiveLook r caps0 E v
+
+/-- Well-formedness of a capture environment: it only defines ids listed in `Graph::captures()`;
+those are value nodes without a producer in this graph that are not supplied as inputs
+(capture placeholders); and nothing can be taken by value. -/
+structure CapsWF {V : Type} (r : Run V) (caps0 : Nat → Option (V × Bool)) : Prop where
+  dom : ∀ v, caps0 v ≠ none → r.g.captures.contains v = true
+  kind : ∀ v, r.g.captures.contains v = true → isValue r.g v = true ∧ r.isInput v = false ∧
+    ∀ i op, getOp r.g i = some op → v ∉ opOutputs op
+  notake : ∀ v x b, caps0 v = some (x, b) → b = false
+
+theorem capsWF_nocap {V : Type} (r : Run V) (h : r.g.captures = []) : CapsWF r (nocap : Nat → Option (V × Bool)) :=
+  ⟨fun v hv => absurd rfl hv, fun v hv => by rw [h] at hv; simp at hv, fun v x b hv => by cases hv⟩
+
+structure Sim {V : Type} (r : Run V) (caps0 : Nat → Option (V × Bool)) (total : Nat → Nat)
+    (rest outs : List Nat) (st : St V) (E : Nat → Option V) : Prop where
   rcb : RcBounded st.rc
   rc : RcInv r.g total rest outs st.rc
-  nocaps : NoCaps st
+  caps : st.caps = caps0
+  capE : ∀ v, r.g.captures.contains v = true → E v = none
   agree : ∀ v x, st.temps v = some x →
     isValue r.g v = true ∧ r.borrowed v = none ∧ val r E v = some x
   live : ∀ v, isValue r.g v = true → r.borrowed v = none → 0 < uses r.g rest outs v →
     val r E v ≠ none → st.temps v ≠ none
+
+theorem Sim.noTake {V : Type} {r : Run V} {caps0 : Nat → Option (V × Bool)} {total : Nat → Nat}
+    {rest outs : List Nat} {st : St V} {E : Nat → Option V} (hs : Sim r caps0 total rest outs st E)
+    (hcw : CapsWF r caps0) : NoTake st := by
+  intro v x b h; rw [hs.caps] at h; exact hcw.notake v x b h
 
 theorem isValue_getNode {g : Graph} {v : Nat} (h : isValue g v = true) : getNode g v = some .value := by
   unfold isValue at h
@@ -56,42 +79,67 @@ theorem val_value {V : Type} {r : Run V} {E : Nat → Option V} {v : Nat}
   | some x => rfl
   | none => cases E v <;> rfl
 
-/-- The executor's input lookup agrees with the naive value for every id that still has a use. -/
-theorem lookupInput_eq {V : Type} {r : Run V} {total : Nat → Nat} {rest outs : List Nat}
-    {st : St V} {E : Nat → Option V} (hs : Sim r total rest outs st E) (d : Nat)
-    (hu : isValue r.g d = true → 0 < uses r.g rest outs d) : lookupInput r st d = val r E d := by
-  unfold lookupInput constOrInput val naiveLook
-  cases hn : getNode r.g d with
+theorem valC_eq {V : Type} (r : Run V) (caps0 : Nat → Option (V × Bool)) (E : Nat → Option V) (v : Nat) :
+    valC r caps0 E v = match val r E v with
+      | some x => some x
+      | none => if isValue r.g v = true then (caps0 v).map (fun p => p.1) else none := by
+  unfold valC val naiveLook isValue nocap
+  cases getNode r.g v with
   | none => rfl
   | some n =>
     cases n with
     | constant => rfl
-    | operator op => rfl
+    | operator _ => rfl
+    | value =>
+      simp only
+      cases r.borrowed v with
+      | some b => rfl
+      | none =>
+        cases r.owned v with
+        | some o => rfl
+        | none =>
+          cases E v with
+          | some e => rfl
+          | none => simp
+
+theorem valC_of_val {V : Type} {r : Run V} {caps0 : Nat → Option (V × Bool)} {E : Nat → Option V}
+    {v : Nat} {x : V} (h : val r E v = some x) : valC r caps0 E v = some x := by
+  rw [valC_eq, h]
+
+/-- The executor's input lookup agrees with the naive value for every id that still has a use. -/
+theorem lookupInput_eq {V : Type} {r : Run V} {caps0 : Nat → Option (V × Bool)} {total : Nat → Nat}
+    {rest outs : List Nat} {st : St V} {E : Nat → Option V} (hs : Sim r caps0 total rest outs st E)
+    (d : Nat) (hu : isValue r.g d = true → 0 < uses r.g rest outs d) :
+    lookupInput r st d = valC r caps0 E d := by
+  rw [valC_eq]
+  unfold lookupInput constOrInput
+  cases hn : getNode r.g d with
+  | none => simp [val, naiveLook, hn, isValue]
+  | some n =>
+    cases n with
+    | constant => simp [val, naiveLook, hn]
+    | operator op => simp [val, naiveLook, hn, isValue]
     | value =>
       have hv : isValue r.g d = true := by simp [isValue, hn]
       cases hb : r.borrowed d with
-      | some b => rfl
+      | some b => simp [val, naiveLook, hn, hb]
       | none =>
-        simp only [hs.nocaps d]
+        simp only
         cases ht : st.temps d with
         | some x =>
           have := (hs.agree d x ht).2.2
-          rw [val_value hv hb] at this
-          simp only [nocap]
-          cases ho : r.owned d with
-          | some y => rw [ho] at this; simp only [Option.some.injEq] at this; simp [this]
-          | none => rw [ho] at this; simp only at this; rw [this]
+          rw [this]
         | none =>
           have hl := hs.live d hv hb (hu hv)
-          rw [val_value hv hb] at hl
-          simp only [nocap]
-          cases ho : r.owned d with
-          | some y => rw [ho] at hl; exact absurd ht (hl (by simp))
-          | none =>
-            rw [ho] at hl
-            cases hE : E d with
+          have hvn : val r E d = none := by
+            cases hval : val r E d with
             | none => rfl
-            | some y => rw [hE] at hl; exact absurd ht (hl (by simp))
+            | some y => exact absurd ht (hl (by rw [hval]; simp))
+          rw [hvn, hs.caps]
+          simp only [hv, if_true]
+          cases caps0 d with
+          | none => rfl
+          | some p => rfl
 
 /-! ## Candidates -/
 
@@ -282,7 +330,7 @@ theorem takeFacts' {V : Type} {ops : Ops V} {r : Run V} {st : St V} {i : Nat} {o
       (candidates ops i op st.temps).all (fun c => canTake r st c.2) && !r.neverInPlace) = true
       then takeAll r st (candidates ops i op st.temps) else some (st, [])) = some (st1, taken))
     (hbv : (if ops.isSubgraph i = true then takeByValue r st1 (capDeps r.g op) else (st1, []))
-      = (st2, byVal)) (hc : NoCaps st) :
+      = (st2, byVal)) (hc : NoTake st) :
     TakeFacts ops r st i op taken st2 byVal := by
   -- phase 1
   have h1 : ∃ tc : List (Nat × Nat), (∀ c ∈ tc, c ∈ candidates ops i op st.temps) ∧
@@ -302,7 +350,7 @@ theorem takeFacts' {V : Type} {ops : Ops V} {r : Run V} {st : St V} {i : Nat} {o
       refine ⟨[], by simp, by rw [← h1], by rw [← h1], by rw [← h2]; exact .nil, ?_, fun _ => rfl⟩
       intro x; rw [← h1]; simp
   obtain ⟨tc, htc, hrc1, hcaps1, ha, htemps1, htnil⟩ := h1
-  have hc1 : NoCaps st1 := by intro v; rw [hcaps1]; exact hc v
+  have hc1 : NoTake st1 := by intro v x b h; rw [hcaps1] at h; exact hc v x b h
   -- phase 2
   have h2 : st2.rc = st1.rc ∧ st2.caps = st1.caps ∧
       (∀ x, st2.temps x = st1.temps x ∨
@@ -404,7 +452,7 @@ theorem takeFacts' {V : Type} {ops : Ops V} {r : Run V} {st : St V} {i : Nat} {o
       simp [hidx] at hcm
 
 theorem takeFacts {V : Type} {ops : Ops V} {r : Run V} {st st' : St V} {i : Nat} {tr : StepTrace}
-    (P : StepParts ops r st st' i tr) (hc : NoCaps st) :
+    (P : StepParts ops r st st' i tr) (hc : NoTake st) :
     TakeFacts ops r st i P.op P.taken P.st2 P.byVal := takeFacts' P.htake P.hbyval hc
 
 end RtenVerif.Executor
